@@ -744,17 +744,53 @@ def rule_F5(prog):
 
 
 # ---------------------------------------------------------------- F6
-def _norm_loop(node, local_ids):
-    """Render a HIR subtree with old/new erased; locals that do not mention a side keep their identity."""
+def _single_assignment_lets(node):
+    """{local id: initialiser} for `let x = e;` bindings that are never reassigned or mutably borrowed below `node`."""
+    lets = {}
+    for st in find_nodes(node, lambda n: n.get("k") == "let" and isinstance(n.get("pat"), dict) and n["pat"].get("k") == "bind"):
+        if st.get("init") and not st["pat"].get("byref"):
+            lets[st["pat"]["id"]] = st["init"]
+    touched = set()
+
+    def root_local(e):
+        while isinstance(e, dict) and e.get("k") in ("field", "index", "droptemps", "cast", "addrof") or (
+                isinstance(e, dict) and e.get("k") == "unary" and e.get("op") == "Deref"):
+            e = e.get("base") or e.get("x")
+        if isinstance(e, dict) and e.get("k") == "path" and e.get("res", {}).get("k") == "local":
+            return e["res"]["id"]
+        return None
+    for n in find_nodes(node, lambda n: n.get("k") in ("assign", "assignop")):
+        rl = root_local(n["l"])
+        if rl is not None:
+            touched.add(rl)
+    for n in find_nodes(node, lambda n: n.get("k") == "addrof" and n.get("mut")):
+        rl = root_local(n["x"])
+        if rl is not None:
+            touched.add(rl)
+    for n in find_nodes(node, lambda n: n.get("k") == "mcall" and (n.get("recv_ty") or "").startswith("&mut")):
+        rl = root_local(n["recv"])
+        if rl is not None:
+            touched.add(rl)
+    return {k: v for k, v in lets.items() if k not in touched}
+
+
+def _norm_loop(node, local_ids, expand_lets=True):
+    """Render a HIR subtree with old/new erased; locals that do not mention a side keep their identity; immutable
+    single-assignment `let` bindings are replaced by their initialisers (so naming an intermediate value in one twin
+    only does not matter)."""
+    lets = _single_assignment_lets(node) if expand_lets else {}
+
     def ren(name):
         return re.sub(r"(?i)(old|new)", "X", name)
 
-    def go(n):
+    def go(n, depth=0):
         if isinstance(n, dict):
             k = n.get("k")
             if k == "path":
                 rr = n.get("res", {})
                 if rr.get("k") == "local":
+                    if rr["id"] in lets and depth < 40:
+                        return go(lets[rr["id"]], depth + 1)
                     nm = rr["name"]
                     if re.search(r"(?i)old|new", nm):
                         return "L:" + ren(nm)
@@ -762,6 +798,12 @@ def _norm_loop(node, local_ids):
                 return "P:" + ren(rr.get("path", "?").rsplit("::", 2)[-1] if "::" in rr.get("path", "") else rr.get("path", "?"))
             if k == "bind":
                 return "B:" + ren(n.get("name", ""))
+            if k == "let" and isinstance(n.get("pat"), dict) and n["pat"].get("id") in lets:
+                return ""
+            if k in ("droptemps",):
+                return go(n["x"], depth + 1)
+            if k == "block" and not n["b"]["stmts"] and n["b"].get("expr"):
+                return go(n["b"]["expr"], depth + 1)
             parts = []
             for kk in sorted(n):
                 if kk in ("id", "line", "ty", "src", "adj_ty", "recv_ty", "gargs", "tyj", "exp", "base_ty", "local", "impl_self",
@@ -771,12 +813,12 @@ def _norm_loop(node, local_ids):
                 if kk in ("name", "method", "op", "lit") and isinstance(v, str):
                     parts.append("%s=%s" % (kk, ren(v)))
                 elif isinstance(v, (dict, list)):
-                    parts.append("%s(%s)" % (kk, go(v)))
+                    parts.append("%s(%s)" % (kk, go(v, depth + 1)))
                 elif kk == "k":
                     parts.append(str(v))
             return "{" + " ".join(parts) + "}"
         if isinstance(n, list):
-            return "[" + ",".join(go(x) for x in n) + "]"
+            return "[" + ",".join(x for x in (go(x, depth + 1) for x in n) if x != "") + "]"
         return str(n)
     return go(node)
 
